@@ -270,10 +270,13 @@ def hostile_handler_sweep(tier, seed, check):
     inputs = [m for t, m in parser_sweep.hostile_inputs(tier, seed) if t == 1]
     first_ok = b'GET http://h.example/ HTTP/1.1\r\nHost: h.example\r\n\r\n'
     static_dir = tempfile.mkdtemp(prefix='pyvc-static-')
-    configs = [('forward proxy', FlagParser.initialize(threaded=False)),
+    configs = [('forward proxy', FlagParser.initialize(threaded=False), first_ok),
                ('proxy + web server + static files', FlagParser.initialize(threaded=False, enable_web_server=True, enable_static_server=True,
-                                                                           static_server_dir=static_dir))]
-    for (role, flags), m in itertools.product(configs, inputs):
+                                                                           static_server_dir=static_dir), first_ok),
+               ('web server with a route plugin (keep-alive follow-ups)',
+                FlagParser.initialize(threaded=False, enable_web_server=True, plugins=[b'proxy.plugin.WebServerPlugin']),
+                b'GET /http-route-example HTTP/1.1\r\nHost: x\r\n\r\n')]
+    for (role, flags, first_req), m in itertools.product(configs, inputs):
         for mode in ('whole', 'bytewise', 'later', 'later-bytewise'):
             sent_up = []
 
@@ -301,7 +304,9 @@ def hostile_handler_sweep(tier, seed, check):
             try:
                 with time_limit(10), mock.patch.object(srv, 'TcpServerConnection', FakeUp):
                     if mode.startswith('later'):        # the hostile bytes are a follow-up request on a keep-alive connection
-                        h.handle_data(memoryview(first_ok))
+                        h.handle_data(memoryview(first_req))
+                        del h.work.buffer[:]            # what the first request was answered with is not under test
+                        h.work._num_buffer = 0
                     for pc in pieces:
                         if h.handle_data(memoryview(pc)):
                             teardown = True
@@ -334,7 +339,7 @@ def hostile_handler_sweep(tier, seed, check):
     import shutil
     shutil.rmtree(static_dir, ignore_errors=True)
     return {'name': 'hostile client bytes into the real HttpProtocolHandler (wait / serve / valid error + close; never hang)', 'bounded': True,
-            'bound': '%d request inputs (framing-field grid + non-UTF-8 targets + seeded random damage) x 2 roles, first / follow-up position, '
+            'bound': '%d request inputs (framing-field grid + non-UTF-8 targets + seeded random damage) x 3 roles, first / follow-up position, '
                      'whole and byte by byte, 10 s watchdog' % len(inputs),
             'cases': n, 'violations': bad[:3]}
 
